@@ -45,7 +45,7 @@ pub fn run(cx: &mut Ctx) {
     }
     // small-scope exhaustive: all keyed inputs of length <= 4 over 2 keys x all partition counts 1..6
     //   x {gbk, combine(sum), combine lifted after gbk, global(sum, fan-out none/2/3)}
-    let maxlen = cx.budget(3, 4);
+    let maxlen = size_for(cx, 3, 4);
     let mut inputs: Vec<Vec<V>> = vec![vec![]];
     let mut frontier: Vec<Vec<V>> = vec![vec![]];
     for _ in 0..maxlen {
@@ -123,4 +123,6 @@ pub fn run(cx: &mut Ctx) {
         check_prog(cx, &p, &modes, &o);
     }
     PAR_THREADS.store(0, std::sync::atomic::Ordering::SeqCst);
+    // round 3: sorted terminals, sources, composites, float aggregates (c01_x.rs)
+    crate::c01_x::run(cx);
 }
